@@ -1108,6 +1108,10 @@ def remove_duplicate_functions(source: str, preserve: Collection[str]) -> str:
 
     delete = set()
     renamings = {}
+    # Names that _fix_variable_names refuses to rename anything to
+    unusable_names = (
+        tracing.get_imported_names(root) | constants.BUILTIN_FUNCTIONS | constants.PYTHON_KEYWORDS
+    )
 
     for funcdefs in function_defs.values():
         if len(funcdefs) == 1:
@@ -1119,6 +1123,9 @@ def remove_duplicate_functions(source: str, preserve: Collection[str]) -> str:
         else:
             replacement = min(funcdefs, key=lambda node: node.lineno)
             preserved_nodes = {replacement}
+
+        if replacement.name in unusable_names:
+            continue  # The uses of the other functions would keep their names
 
         for node in funcdefs - preserved_nodes:
             delete.add(node)
